@@ -8,6 +8,8 @@ import (
 	"net/http"
 	"os"
 	"strings"
+	"sync"
+	"time"
 
 	"go.opentelemetry.io/otel/propagation"
 	"go.opentelemetry.io/otel/trace"
@@ -436,6 +438,105 @@ func main() {
 			w.Tally(fmt.Sprintf("roundtrip:valid=%v", sc.IsValid()))
 			w.Add(term, desc, "roundtrip", sc.IsValid())
 		})
+	}
+
+	// concurrent round trips: several goroutines inject and extract their own span
+	// contexts at the same time (the propagator is shared, stateless by contract);
+	// every goroutine keeps, per span context, the first observation that differs
+	// from its own first one (else the first), and each is judged like a round trip.
+	{
+		type conc struct {
+			tid        trace.TraceID
+			sid        trace.SpanID
+			fl         byte
+			tsStr      string
+			ts         trace.TraceState
+			tp, tsOut  string
+			ob         extObs
+			seen, diff bool
+		}
+		const G = 8
+		per := o.Count(8, 32)
+		iters := o.Count(250, 2000)
+		deadline := time.Now().Add(time.Duration(o.Count(1500, 10000)) * time.Millisecond)
+		sets := make([][]conc, G)
+		for g := range sets {
+			for k := 0; k < per; k++ {
+				var c conc
+				for j := range c.tid {
+					c.tid[j] = byte(r.Intn(256))
+				}
+				for j := range c.sid {
+					c.sid[j] = byte(r.Intn(256))
+				}
+				c.tid[0] |= 1
+				c.sid[0] |= 1
+				c.fl = byte(r.Intn(4))
+				c.tsStr = strings.Join(validList(r, vgen.Pick(r, []int{0, 1, 2, 5})), ",")
+				ts, err := trace.ParseTraceState(c.tsStr)
+				if err != nil {
+					c.tsStr, ts = "", trace.TraceState{}
+				}
+				c.ts = ts
+				sets[g] = append(sets[g], c)
+			}
+		}
+		var wg sync.WaitGroup
+		var mu sync.Mutex
+		start := make(chan struct{})
+		for g := 0; g < G; g++ {
+			wg.Add(1)
+			go func(cs []conc) {
+				defer wg.Done()
+				defer func() {
+					if e := recover(); e != nil {
+						mu.Lock()
+						w.Violation(fmt.Sprintf("panic in concurrent Inject/Extract: %v", e), map[string]any{"op": "roundtrip-concurrent"})
+						mu.Unlock()
+					}
+				}()
+				ctxs := make([]context.Context, len(cs))
+				for k := range cs {
+					sc := trace.NewSpanContext(trace.SpanContextConfig{TraceID: cs[k].tid, SpanID: cs[k].sid, TraceFlags: trace.TraceFlags(cs[k].fl), TraceState: cs[k].ts})
+					ctxs[k] = trace.ContextWithSpanContext(context.Background(), sc)
+				}
+				<-start
+				for it := 0; it < iters || (it%256 != 0 || time.Now().Before(deadline)); it++ {
+					for k := range cs {
+						c := &cs[k]
+						if c.diff {
+							continue
+						}
+						car := propagation.MapCarrier{}
+						prop.Inject(ctxs[k], car)
+						if !c.seen {
+							c.seen, c.tp, c.tsOut, c.ob = true, car["traceparent"], car["tracestate"], doExtract(car["traceparent"], car["tracestate"])
+						} else if car["traceparent"] != c.tp || car["tracestate"] != c.tsOut {
+							c.diff, c.tp, c.tsOut, c.ob = true, car["traceparent"], car["tracestate"], doExtract(car["traceparent"], car["tracestate"])
+						} else if it%64 == 0 {
+							if ob := doExtract(car["traceparent"], car["tracestate"]); ob.coq() != c.ob.coq() {
+								c.diff, c.ob = true, ob
+							}
+						}
+					}
+				}
+			}(sets[g])
+		}
+		close(start)
+		wg.Wait()
+		for g := range sets {
+			for _, c := range sets[g] {
+				if !c.seen {
+					continue
+				}
+				desc := map[string]any{"op": "roundtrip-concurrent", "goroutine": g, "trace_id": c.tid.String(), "span_id": c.sid.String(), "flags": c.fl,
+					"tracestate": c.tsStr, "traceparent_seen": c.tp, "unstable_across_repeats": c.diff}
+				term := vgen.App("CRound", vgen.Hx(c.tid[:]), vgen.Hx(c.sid[:]), vgen.N(uint64(c.fl)), vgen.HxS(c.tsStr),
+					vgen.HxS(c.ts.String()), vgen.HxS(c.tp), vgen.HxS(c.tsOut), c.ob.coq())
+				w.Tally("roundtrip-concurrent")
+				w.Add(term, desc, "roundtrip-concurrent", true)
+			}
+		}
 	}
 
 	// edit scripts
